@@ -2,6 +2,60 @@
 
 # id -> dict(text, note, technique, design_ref)  for claimed properties
 CLAIMED = {
+    "C02": dict(
+        text=(
+            "Static cache-coherence and determinism analysis: what the fixed plugin cache is keyed on "
+            "versus every way the plugin registry can change (replacing stores must be preceded by an "
+            "invalidation), cache reads keyed by the current context hash, a determinism lint over "
+            "the whole hash path (no builtin hash values, sorted mappings/sets, nothing address "
+            "dependent), the track filter on both lineage branches, exact-vs-fuzzy match structure, and "
+            "the no-save guard under fuzzy matching.  Necessary conditions of 'no stale reads after "
+            "any history'; equality with a fresh-context oracle is not decided."
+        ),
+        note="Trusted: CPython ast; json/sha1 determinism; plugin classes are not mutated in place after registration.",
+        technique="def-use / provenance comparison of cache key vs. cached value inputs; path (cut-set) rule on registry stores; determinism lint",
+        design_ref="DESIGN.md section 4 C02",
+    ),
+    "C04": dict(
+        text=(
+            "Static path and provenance rules over the write protocol, valid for every crash / fault "
+            "position because they hold on all CFG paths: writes only under *_temp, final rename last "
+            "and after the metadata flush, failure/completion markers before publication, every "
+            "asynchronous write observed before the normal-path close, broken-data tests on every read "
+            "path (exhaustive decision table for the overwrite policy), savers closed while the "
+            "exception is active, failed saves recorded and re-raised."
+        ),
+        note="Trusted: atomicity of os.rename; formatted_exception() non-empty iff an exception is active; CPython ast.",
+        technique="provenance of path arguments, dominator / cut-set path rules, decision-table extraction, future-flow rule",
+        design_ref="DESIGN.md section 4 C04",
+    ),
+    "C06": dict(
+        text=(
+            "Static analysis of all failure paths: thread entries resolved from Thread targets through "
+            "the processor wiring must convert exceptions into kills; kill wakes all waiters; both "
+            "processors catch Exception and GeneratorExit, assign the relay variable on every handler "
+            "path, kill all mailboxes, join, re-raise the original object; a path-sensitive abstract "
+            "interpretation rejects statements that fail by construction on those paths; every "
+            "catch-all handler in the pipeline modules reacts.  Liveness beyond this structure "
+            "(capacity vs. plugin lag) is not decided."
+        ),
+        note="Trusted: generator.throw semantics; Mailbox.cleanup joins; CPython ast; callee resolution table in sa/resolve.py.",
+        technique="handler-path cut-set rules on the CFG, thread-entry resolution, path-sensitive abstract interpretation, provenance of the re-raised object",
+        design_ref="DESIGN.md section 4 C06",
+    ),
+    "C11": dict(
+        text=(
+            "Exhaustive decision tables (save policy x targets x save; frontend accept filter) "
+            "extracted by abstract execution and compared with the specification, plus guard-dominance "
+            "rules: the only saver-creating call of get_components is dominated by all no-save guards "
+            "and a positive policy test; scheduling only on the not-stored branch and after the "
+            "availability errors; single producer per data type in both processors.  The number of "
+            "compute calls at run time is not decided."
+        ),
+        note="Trusted: CPython ast; the guard requirement table in sa/props/c11.py.",
+        technique="finite decision-table extraction + dominator rules on guard edges + provenance of fan-out arguments",
+        design_ref="DESIGN.md section 4 C11",
+    ),
     "C05": dict(
         text=(
             "Static monitor-discipline analysis of strax.mailbox over all CFG paths: lockset on the "
